@@ -372,3 +372,48 @@ Proof.
 Qed.
 Print Assumptions C14_gen_tree_roundtrip.
 Print Assumptions C14_gen_tree_edges_order.
+
+(* ------------------------------------------------------------------ *)
+(** * Multivariate.from_dict on a vine dict (the F38 fix): the class named by params['type'] is looked up, NOT instantiated, and its
+      from_dict classmethod gets the whole dict *)
+Theorem C14_gen_dispatch_multivariate_vine : forall (R : Type) (h : pv -> result R) (d : list (string * pv)),
+  pget "type" d = Ok (PJ (JStr vine_fqn)) -> gen_Multivariate_from_dict h (PDict d) = h (PDict d).
+Proof. intros R h d H. unfold gen_Multivariate_from_dict, py_getitem. rewrite H. reflexivity. Qed.
+
+(* equal to the model wherever the model speaks (the model knows one multivariate class with Python-valued dicts: VineCopula) *)
+Theorem C14_bridge_Multivariate_from_dict_vine : forall p : pv,
+  (forall s, py_getitem p "type" = Ok (PJ (JStr s)) -> s = vine_fqn) ->
+  gen_Multivariate_from_dict vine_of_dict p = multivariate_from_dict_vine p.
+Proof.
+  intros p H. destruct p as [j|c n|q|d]; try reflexivity.
+  unfold gen_Multivariate_from_dict, multivariate_from_dict_vine, py_getitem in *.
+  destruct (pget "type" d) as [t|e]; [|reflexivity]. cbn [bind].
+  destruct t as [j|c n|q|dd]; try reflexivity. destruct j as [q0|b| |s|q| | |s|b]; try reflexivity.
+  rewrite (H s eq_refl). reflexivity.
+Qed.
+
+(* every dict written by the generated VineCopula.to_dict is dispatched to the generated VineCopula.from_dict ... *)
+Theorem C14_gen_dispatch_written_vine : forall (v : vine) (d : pv),
+  gen_VineCopula_to_dict to_dict_scipy v = Ok d ->
+  gen_Multivariate_from_dict (gen_VineCopula_from_dict from_dict_scipy) d = gen_VineCopula_from_dict from_dict_scipy d.
+Proof.
+  intros v d Hd. rewrite C14_bridge_VineCopula_to_dict in Hd. unfold vine_to_dict in Hd. destruct (v_body v) as [b|].
+  - unfold bind in Hd. destruct (all_ok (map tree_to_dict (vb_trees b))); [|discriminate].
+    destruct (all_ok (map to_dict_scipy (vb_unis b))); [|discriminate]. injection Hd as <-.
+    apply C14_gen_dispatch_multivariate_vine. reflexivity.
+  - injection Hd as <-. apply C14_gen_dispatch_multivariate_vine. reflexivity.
+Qed.
+(* ... hence the generic entry point round-trips every well-formed vine *)
+Theorem C14_gen_generic_vine_roundtrip : forall (v : vine) (d : pv) (v' : vine) (ppfs : option (list sinst)),
+  wf_vine v = true ->
+  (forall b, v_body v = Some b -> Forall good_s (vb_unis b)) ->
+  gen_VineCopula_to_dict to_dict_scipy v = Ok d ->
+  gen_Multivariate_from_dict (gen_VineCopula_from_dict from_dict_scipy) d = Ok (v', ppfs) ->
+  gen_VineCopula_to_dict to_dict_scipy v' = Ok d /\ v_trees v' = v_trees v /\ v_type v' = v_type v /\ ppfs = ppfs_of v'.
+Proof.
+  intros v d v' ppfs Hw Hg Hd Hr. rewrite (C14_gen_dispatch_written_vine v d Hd) in Hr.
+  exact (C14_gen_vine_roundtrip v d v' ppfs Hw Hg Hd Hr).
+Qed.
+Print Assumptions C14_gen_dispatch_multivariate_vine.
+Print Assumptions C14_bridge_Multivariate_from_dict_vine.
+Print Assumptions C14_gen_generic_vine_roundtrip.
